@@ -52,6 +52,7 @@ static struct {
 	int picked[RT_MAXT];
 	int waits_started[RT_MAXT];
 	int sink;
+	int cur_op[RT_MAXT];
 } S;
 static int maxsleeps;
 static void scan_waiters (void);
@@ -114,6 +115,7 @@ static void client (void *arg) {
 		if (ip >= S.nops[t]) { if (S.looper[t]) { ip = 0; continue; } break; }
 		o = &S.prog[t][ip];
 		S.done_ops[t]++;
+		S.cur_op[t] = ip;
 		switch (o->op) {
 		case O_LOCK: ip++; S.sleeps[t] = 0; S.inlock[t] = 1; if (o->lt == 1) nsync_mu_lock (S.mu); else nsync_mu_rlock (S.mu); S.inlock[t] = 0; break;
 		case O_TRYLOCK: ip++; S.ret[t] = (o->lt == 1) ? nsync_mu_trylock (S.mu) : nsync_mu_rtrylock (S.mu); break;
@@ -361,10 +363,23 @@ static void note_step (int t) {
 static void post (int actor, const char *label) { (void) label; note_step (actor - 1); }
 static void env (const char *label, const char *exp) { (void) exp; if (!strcmp (label, "Tick")) rt_tick (); }
 
+/* a thread may legitimately stay asleep for ever only inside nsync_mu_wait on a condition that is false (nobody owes it a wake-up) */
+static int legit_asleep (int i) {
+	struct op *o;
+	if (rt_state (i) == F_DONE || S.cur_op[i] >= S.nops[i]) return 0;
+	o = &S.prog[i][S.cur_op[i]];
+	if (o->op != O_MUWAIT || o->c == 0 || S.mu_freed) return 0;
+	return *S.conds[o->c - 1].arg->cell == 0 && !rt_enabled (i);
+}
 static int victim_done (void) {
 	int i;
 	for (i = 0; i < S.n; i++) if (!S.looper[i] && rt_state (i) != F_DONE) return 0;
 	return 1;
+}
+static int only_legit_sleepers (void) {
+	int i, any = 0;
+	for (i = 0; i < S.n; i++) if (!S.looper[i] && rt_state (i) != F_DONE) { if (!legit_asleep (i)) return 0; any = 1; }
+	return any;
 }
 static int max_deadline (void) { int t, i, m = 0; for (t = 0; t < S.n; t++) for (i = 0; i < S.nops[t]; i++) if (S.prog[t][i].dl > m) m = S.prog[t][i].dl; return m; }
 static void finish (int diverged) {
@@ -374,7 +389,7 @@ static void finish (int diverged) {
 		/* same state as the specification's: a terminal state in which somebody is still blocked is a hang */
 		int timed = 0;
 		for (i = 0; i < S.n; i++) if (rt_state (i) == F_PARKED && rt_pending (i)->kind == OP_SEMPD && rt_now () < RT_T0 + max_deadline ()) timed = 1;
-		if (victim_done () || rt_any_enabled () || timed) return;
+		if (victim_done () || rt_any_enabled () || timed || only_legit_sleepers ()) return;
 	}
 	while (!victim_done () && guard++ < 200000 && !rt_first_violation ()) {
 		progress = 0;
@@ -385,7 +400,7 @@ static void finish (int diverged) {
 		}
 	}
 	if (rt_first_violation ()) return;
-	if (!victim_done ()) {
+	if (!victim_done () && !(guard < 200000 && only_legit_sleepers ())) {
 		char b[300]; size_t o = 0;
 		for (i = 0; i < S.n; i++) if (rt_state (i) != F_DONE) {
 			char fb[64];
